@@ -265,9 +265,13 @@ package main
 //@   atcall (net/http.ResponseWriter).WriteHeader sets ghostStatusSent bool (w2 http.ResponseWriter, code int) :: true
 //@   atcall fmt.Fprintf requires (w2 io.Writer, format string, a []any) :: ghostStatusSent   #C09.readyz-status-before-body @C09
 //@ ghost var ghostStatusSent bool
+// a request racing an injection never sees a half-loaded server: the two sealed tests read the signer inside the
+// critical section the loader writes it in (readslocked: in these functions reads need the mutex as well)
 //@ func (*RuntimeState).sendFailureToClientIfLocked
+//@   readslocked
 //@   ensures ret0 == (state.Signer == nil)                                          #C09.locked-test @C09
 //@ func (*RuntimeState).isUnsealed
+//@   readslocked
 //@   ensures ret0 == (state.Signer != nil)                                          #C09.unsealed-test @C09
 
 // ---- automation (role-requesting) certificates: C03 45 days, C10 strength, C11 refresh keeps the identity ----
